@@ -42,7 +42,9 @@ func checkC03(c *Check) {
 			continue
 		}
 		eachCall(f, func(cl ssa.CallInstruction) {
-			if o := calleeObj(cl); o != nil && o.Name() == "NextToken" && strings.HasSuffix(o.Pkg().Path(), "/antlr") {
+			// (directly, or through an interface the raw token source is handed in as)
+			if o := calleeObj(cl); o != nil && o.Name() == "NextToken" && o.Pkg() != nil &&
+				(strings.HasSuffix(o.Pkg().Path(), "/antlr") || (cl.Common().IsInvoke() && o.Pkg().Path() == grammarPkg)) {
 				pump = f
 			}
 		})
